@@ -270,7 +270,172 @@ def r15_static_to_const(text):
     return new, n
 
 
+def r16_split_iter_map_collect(text):
+    """R16: the iterator adapter chain `RECV.iter().map(CLOSURE).collect()` is replaced by a call of the
+    contract-only prelude helper `verif_iter_map_collect(RECV, CLOSURE)` (assumed contract: the collection
+    built from CLOSURE applied to every entry of RECV).  The closure text is untouched and is verified
+    against its spliced `ensures`.  (vstd's `Iterator::map` specification is unusable for generic item types.)"""
+    cnt = 0
+    while True:
+        m = L.mask(text)
+        found = False
+        for r in re.finditer(r"([A-Za-z_][A-Za-z0-9_]*(?:\s*\.\s*[A-Za-z_][A-Za-z0-9_]*)*?)\s*\.\s*iter\s*\(\s*\)\s*\.\s*map\s*\(", m):
+            po = r.end() - 1
+            pc = L.match_close(m, po)
+            t = re.match(r"\s*\.\s*collect\s*(::<[^;]*?>)?\s*\(\s*\)", m[pc + 1:])
+            if not t:
+                continue
+            end = pc + 1 + t.end()
+            recv = " ".join(text[r.start(1):r.end(1)].split())
+            clos = text[po + 1:pc]
+            text = text[:r.start()] + "verif_iter_map_collect(" + recv + ", " + clos.strip() + ")" + text[end:]
+            cnt += 1
+            found = True
+            break
+        if not found:
+            return text, cnt
+
+
+def _split_stmts(text, m, lo, hi):
+    """Top-level statements of the block interior text[lo:hi]; returns list of (start, end) spans."""
+    res = []
+    i = lo
+    while True:
+        i = L.skip_ws(m, i)
+        if i >= hi:
+            break
+        st = i
+        kw = re.match(r"(if|for|while|loop|match|unsafe)\b", m[i:hi])
+        if m[i] == "{" or kw:
+            # block-like statement: up to the end of its (last chained) block
+            j = i
+            while True:
+                while j < hi and m[j] != "{":
+                    if m[j] in "([":
+                        j = L.match_close(m, j)
+                    j += 1
+                j = L.match_close(m, j) + 1
+                k = L.skip_ws(m, j)
+                if m.startswith("else", k) and not (m[k + 4].isalnum() or m[k + 4] == "_"):
+                    j = k + 4
+                    continue
+                break
+            k = L.skip_ws(m, j)
+            if k < hi and m[k] == ";":
+                j = k + 1
+            elif k < hi and m[k] == ".":
+                # expression continues (e.g. `match x {..}.foo()`): treat as expression statement
+                while j < hi and m[j] != ";":
+                    if m[j] in "([{":
+                        j = L.match_close(m, j)
+                    j += 1
+                j = min(j + 1, hi)
+            res.append((st, j))
+            i = j
+        else:
+            j = i
+            while j < hi and m[j] != ";":
+                if m[j] in "([{":
+                    j = L.match_close(m, j)
+                j += 1
+            j = min(j + 1, hi)
+            res.append((st, j))
+            i = j
+    return res
+
+
+def _guard_continue(text, m, st, en):
+    """If statement text[st:en] is `let P = E else { S continue; };` or `if C { S continue; }` (no else),
+    return (kind, head, stmts_without_continue)."""
+    seg_m = m[st:en]
+    if re.match(r"let\b", seg_m):
+        # find ` else {` at depth 0
+        j = st
+        els = None
+        while j < en:
+            if m[j] in "([{":
+                j = L.match_close(m, j)
+            elif m.startswith("else", j) and not (m[j - 1].isalnum() or m[j - 1] == "_") and L.skip_ws(m, j + 4) < en and m[L.skip_ws(m, j + 4)] == "{":
+                els = j
+                break
+            j += 1
+        if els is None:
+            return None
+        bo = L.skip_ws(m, els + 4)
+        bc = L.match_close(m, bo)
+        inner = text[bo + 1:bc]
+        im = m[bo + 1:bc]
+        k = re.search(r"\bcontinue\s*;\s*$", im)
+        if not k:
+            return None
+        if re.search(r"\bcontinue\b", im[:k.start()]):
+            return None
+        return ("letelse", text[st:els].rstrip(), inner[:k.start()].rstrip())
+    if re.match(r"if\b", seg_m):
+        j = st
+        while m[j] != "{":
+            if m[j] in "([":
+                j = L.match_close(m, j)
+            j += 1
+        bc = L.match_close(m, j)
+        rest = m[bc + 1:en].strip()
+        if rest.startswith("else"):
+            return None
+        inner = text[j + 1:bc]
+        im = m[j + 1:bc]
+        k = re.search(r"\bcontinue\s*;\s*$", im)
+        if not k or re.search(r"\bcontinue\b", im[:k.start()]):
+            return None
+        return ("if", text[st:j].rstrip(), inner[:k.start()].rstrip())
+    return None
+
+
+def _elim_block(interior):
+    """interior: text between the braces of a block that is in loop-tail position."""
+    m = L.mask(interior)
+    stmts = _split_stmts(interior, m, 0, len(interior))
+    for (st, en) in stmts:
+        g = _guard_continue(interior, m, st, en)
+        if g is None:
+            continue
+        kind, head, inner = g
+        rest, n = _elim_block(interior[en:])
+        if kind == "letelse":
+            new = "if " + head + " {" + rest.rstrip() + "\n} else {" + inner + "\n}"
+        else:
+            new = head + " {" + inner + "\n} else {" + rest.rstrip() + "\n}"
+        return interior[:st] + new + "\n", n + 1
+    return interior, 0
+
+
+def r17_continue_elimination(text):
+    """R17: inside a `for` body, a guard that ends in `continue;`
+         `let P = E else { S; continue; }; REST`  ->  `if let P = E { REST } else { S }`
+         `if C { S; continue; } REST`             ->  `if C { S } else { REST }`
+    applied from the top of the loop body downwards (REST is in tail position again).
+    (Verus does not support `continue` in for-loops; the forms are equivalent because `continue`
+    is the last statement of a guard block whose remainder is the rest of the loop body.)"""
+    cnt = 0
+    while True:
+        m = L.mask(text)
+        changed = False
+        for (kw_pos, kw, bo) in L.find_loops(m, 0, len(m)):
+            if kw != "for":
+                continue
+            bc = L.match_close(m, bo)
+            new, n = _elim_block(text[bo + 1:bc])
+            if n:
+                text = text[:bo + 1] + new + text[bc:]
+                cnt += n
+                changed = True
+                break
+        if not changed:
+            return text, cnt
+
+
 RULES = {
+    "R17": r17_continue_elimination,
+    "R16": r16_split_iter_map_collect,
     "R15": r15_static_to_const,
     "R1": r1_strip_attrs_comments,
     "R2": r2_let_chains,
